@@ -835,7 +835,9 @@ impl ActiveStatus {
             #[allow(clippy::indexing_slicing, reason = "TODO: eliminate possible panic")]
             DATA_WRITTEN => {
                 // Uh oh, was written, does the existing value match the current data?
-                flash.read_to(data_start, read_scratch).await?;
+                flash
+                    .read_to(data_start, &mut read_scratch[..bytes.len()])
+                    .await?;
                 assert_eq!(&read_scratch[..bytes.len()], bytes);
                 // All good!
                 return Ok(WriteSegmentOutcome::Consumed);
